@@ -32,6 +32,10 @@ def plan_to_text(p):
     parts = [str(int(p["inited"])), str(mask), str(len(p["steps"]))]
     for s in p["steps"]:
         c = s["c"]
+        if c["kind"] == "reinit":
+            m2 = sum(1 << ACTNUM[a] for a in c["sup"])
+            parts += [7, m2, 0, 0, 0, 0, 0, 0, 0, 0, SEQNUM[s["seq"]], s["savedIn"], int(s["allowBuf"]), s["totalIn"], s["totalOut"], 0]
+            continue
         parts += [ACTNUM[c["action"]], c["ain"], c["aout"], int(c["inNull"]), int(c["outNull"]), int(c["resv"]),
                   RETNUM[c["innerRet"]], c["uin"], c["uout"], RETNUM[c["ret"]] if c["ret"] != "TIMED_OUT" else 0,
                   SEQNUM[s["seq"]], s["savedIn"], int(s["allowBuf"]), s["totalIn"], s["totalOut"], int(c["innerRan"])]
@@ -55,7 +59,7 @@ def replay_plans(ctx, plans, label):
         field = l.split()[3]
         pl = plans[int(f["plan"])]
         st = pl["steps"][int(f["step"])]
-        key = "replay:%s:%s:%s" % (field, st["c"]["action"], st["c"]["innerRet"])
+        key = "replay:%s:%s:%s" % (field, st["c"].get("action", "REINIT"), st["c"].get("innerRet", "-"))
         if key in seen:
             continue
         seen.add(key)
@@ -67,11 +71,33 @@ def replay_plans(ctx, plans, label):
     ctx.log("replayed %d model transitions (%s): %s" % (len(plans), label, done[0]))
 
 # ------------------------------------------------------------------ V: histories on real coders
-def record_history(lz, coders, name, rng, out, ncalls):
-    """Append events of one random call history on coder `name` to list `out`."""
+def _release_extras(lz, c):
+    """Caller-owned objects attached to a Coder by the registry (Index given to / produced by a coder)."""
+    if getattr(c, "keep_index", None):
+        lz.L().lzma_index_end(c.keep_index, None); c.keep_index = None
+    if getattr(c, "index_out", None) is not None and c.index_out.value:
+        lz.L().lzma_index_end(c.index_out, None)
+    c.index_out = None
+
+def record_history(lz, coders, name, rng, out, ncalls, prev=None):
+    """Append events of one random call history on coder `name` to list `out`.
+    prev: a Coder whose handle is re-initialised with this constructor WITHOUT lzma_end() (event Reinit)."""
     ev = {"e": "Reset", "coder": coders.tlaname(name), "inited": True, "impl": name}
     mode = rng.random()
-    if mode < 0.04:
+    if prev is not None:
+        old_index_out = getattr(prev, "index_out", None)
+        old_keep = getattr(prev, "keep_index", None)
+        prev.index_out = None; prev.keep_index = None
+        c, data, r = coders.make_with_sample(name, rng, coder=prev)
+        if r != lz.OK:
+            raise MachineryError("constructor %s failed with %s on a reused handle" % (name, r))
+        # the previous coder was freed by the re-initialisation; release what the caller owned
+        if old_keep:
+            lz.L().lzma_index_end(old_keep, None)
+        if old_index_out is not None and old_index_out.value:
+            lz.L().lzma_index_end(old_index_out, None)
+        ev["e"] = "Reinit"
+    elif mode < 0.04:
         # use before initialisation
         c = lz.Coder(); data = b"abc"; ev["inited"] = False; ev["coder"] = "none"
     else:
@@ -155,12 +181,7 @@ def record_history(lz, coders, name, rng, out, ncalls):
         if ret in (lz.STREAM_END, lz.SEEK_NEEDED):
             flushing = None
     s.reserved_int3 = 0
-    c.end()
-    if getattr(c, "keep_index", None):
-        lz.L().lzma_index_end(c.keep_index, None)
-    if getattr(c, "index_out", None) is not None and c.index_out.value:
-        lz.L().lzma_index_end(c.index_out, None)
-    return problems
+    return problems, c
 
 def validate_histories(ctx, nhist, ncalls):
     from harness.pydrv import lz, coders
@@ -171,7 +192,17 @@ def validate_histories(ctx, nhist, ncalls):
     for h in range(nhist):
         name = coders.ALL[h % len(coders.ALL)]
         events = []
-        probs = record_history(lz, coders, name, ctx.rng, events, ncalls)
+        probs, c = record_history(lz, coders, name, ctx.rng, events, ncalls)
+        label = name
+        # the same handle given to 1-2 more constructors without lzma_end() in between
+        k = 0
+        while ctx.rng.random() < 0.35 and k < 2:
+            name2 = ctx.rng.choice(coders.ALL)
+            p2, c = record_history(lz, coders, name2, ctx.rng, events, max(4, ncalls // 2), prev=c)
+            probs += p2; label += "+" + name2; k += 1
+        c.end()
+        _release_extras(lz, c)
+        name = label
         hists.append((name, events))
         for p in probs:
             ctx.violation("history:%s:%s" % (name, p.split(" (")[0]), p, dict(kind="history", coder=name, events=events))
@@ -195,7 +226,26 @@ def run(ctx):
     plans = plans_from_tlc(g.out)
     if len(plans) < 1000:
         raise MachineryError("plan generation produced only %d plans" % len(plans))
-    replay_plans(ctx, plans, "all transitions, MaxIn=2 MaxOut=1")
+    # Re-initialisation without lzma_end(): the abstract state after Reinit equals a fresh one, so BFS never
+    # extends a path through it.  Compose: (path ending in Reinit(sup)) ++ (a one-call plan of a fresh handle with
+    # the same supported set) is a behaviour of the model; the implementation must follow it too (a constructor that
+    # leaves stale supported_actions[] or a stale sequence behind shows up here).
+    first = {}
+    for p in plans:
+        if len(p["steps"]) == 1 and p["inited"] and p["steps"][0]["c"]["kind"] == "call":
+            first.setdefault(tuple(sorted(p["supported"])), []).append(p["steps"][0])
+    composed = []
+    for p in plans:
+        last = p["steps"][-1]["c"]
+        if last["kind"] == "reinit" and len(p["steps"]) >= 2:
+            cands = first.get(tuple(sorted(last["sup"])), [])
+            for q in ctx.rng.sample(cands, min(len(cands), 30 if ctx.quick else 200)):
+                q2 = dict(q)
+                if not q["c"]["innerRan"]:
+                    q2["savedIn"] = p["steps"][-1]["savedIn"]     # a rejected call leaves internal->avail_in alone
+                composed.append(dict(inited=p["inited"], supported=p["supported"], steps=p["steps"] + [q2]))
+    ctx.log("composed %d reinit-then-call plans" % len(composed))
+    replay_plans(ctx, plans + composed, "all transitions (MaxIn=2 MaxOut=1) + reinit compositions")
     # (V)
     validate_histories(ctx, 190 if ctx.quick else 1900, 14 if ctx.quick else 24)
     ctx.assumptions += ["inner coders never return LZMA_BUF_ERROR to lzma_code (asserted by the code)",
